@@ -237,7 +237,7 @@ func ruleLC(w *world.World, r *report.RuleResult) {
 						if iff == nil {
 							return 0
 						}
-						o, trueIsIn, ok := membershipTest(iff.Cond)
+						o, trueIsIn, ok := membershipTest(world.CondValue(iff))
 						if !ok || !world.SameExpr(o, obj) {
 							return 0
 						}
